@@ -1,0 +1,232 @@
+//go:build verif
+
+// Package verif: cooperative token-passing scheduler used by the external
+// verification harness (build tag "verif"). Exactly one registered goroutine
+// runs at a time; it gives up the token only inside Await/Yield/End.
+package verif
+
+import (
+	"bytes"
+	"fmt"
+	"runtime"
+	"strconv"
+	"sync"
+	"time"
+)
+
+type Thread struct {
+	ID     int
+	Kind   string
+	Key    string
+	Label  string
+	Done   bool
+	cond   func() bool
+	resume chan struct{}
+}
+
+type Sched struct {
+	mu      sync.Mutex
+	on      bool
+	fine    bool
+	threads []*Thread
+	byGoid  map[int64]*Thread
+	busy    int
+	wake    chan struct{}
+	log     []string
+	Timeout time.Duration
+}
+
+var S = newSched()
+
+func newSched() *Sched {
+	return &Sched{byGoid: map[int64]*Thread{}, wake: make(chan struct{}, 1), Timeout: 2 * time.Second}
+}
+
+func goid() int64 {
+	var buf [64]byte
+	n := runtime.Stack(buf[:], false)
+	f := bytes.Fields(buf[:n])
+	id, _ := strconv.ParseInt(string(f[1]), 10, 64)
+	return id
+}
+
+// Reset installs a fresh scheduler (threads of an earlier scenario are abandoned).
+func Reset(on, fine bool) {
+	s := newSched()
+	s.on = on
+	s.fine = fine
+	S = s
+}
+
+func On() bool { return S.on }
+
+func (s *Sched) me() *Thread {
+	s.mu.Lock()
+	defer s.mu.Unlock()
+	return s.byGoid[goid()]
+}
+
+func (s *Sched) notify() {
+	select {
+	case s.wake <- struct{}{}:
+	default:
+	}
+}
+
+// Spawn: the calling goroutine is about to execute a go statement whose body starts with Begin.
+func Spawn() {
+	s := S
+	if !s.on {
+		return
+	}
+	s.mu.Lock()
+	s.busy++
+	s.mu.Unlock()
+}
+
+// Begin: first statement of a spawned goroutine; registers it and parks it.
+func Begin(kind, key string) {
+	s := S
+	if !s.on {
+		return
+	}
+	s.mu.Lock()
+	t := &Thread{ID: len(s.threads), Kind: kind, Key: key, resume: make(chan struct{}, 1), Label: "begin"}
+	s.threads = append(s.threads, t)
+	s.byGoid[goid()] = t
+	s.busy--
+	s.mu.Unlock()
+	s.notify()
+	<-t.resume
+}
+
+func End() {
+	s := S
+	if !s.on {
+		return
+	}
+	t := s.me()
+	if t == nil {
+		return
+	}
+	s.mu.Lock()
+	t.Done = true
+	t.Label = "end"
+	delete(s.byGoid, goid())
+	s.busy--
+	s.mu.Unlock()
+	s.notify()
+}
+
+// Yield is a non-blocking scheduling point (only in fine mode).
+func Yield(label string) {
+	s := S
+	if !s.on || !s.fine {
+		return
+	}
+	Await(label, nil)
+}
+
+// Await parks the calling thread; it is runnable when cond() holds (nil: always).
+func Await(label string, cond func() bool) {
+	s := S
+	if !s.on {
+		return
+	}
+	t := s.me()
+	if t == nil {
+		return
+	}
+	s.mu.Lock()
+	t.Label = label
+	t.cond = cond
+	s.busy--
+	s.mu.Unlock()
+	s.notify()
+	<-t.resume
+}
+
+func Obs(format string, a ...any) {
+	s := S
+	if !s.on {
+		return
+	}
+	s.mu.Lock()
+	s.log = append(s.log, fmt.Sprintf(format, a...))
+	s.mu.Unlock()
+}
+
+// TakeLog returns and clears the observations recorded since the last call.
+func (s *Sched) TakeLog() []string {
+	s.mu.Lock()
+	defer s.mu.Unlock()
+	l := s.log
+	s.log = nil
+	return l
+}
+
+// Settle waits until no registered thread is running and no spawn is pending.
+func (s *Sched) Settle() error {
+	deadline := time.After(s.Timeout)
+	for {
+		s.mu.Lock()
+		b := s.busy
+		s.mu.Unlock()
+		if b <= 0 {
+			return nil
+		}
+		select {
+		case <-s.wake:
+		case <-time.After(200 * time.Microsecond):
+		case <-deadline:
+			return fmt.Errorf("divergence: %d thread(s) did not park within %v", b, s.Timeout)
+		}
+	}
+}
+
+func (s *Sched) Threads() []*Thread {
+	s.mu.Lock()
+	defer s.mu.Unlock()
+	return append([]*Thread{}, s.threads...)
+}
+
+// Enabled lists the parked threads that may run (evaluates wake conditions on the real state).
+func (s *Sched) Enabled() []*Thread {
+	var en []*Thread
+	for _, t := range s.Threads() {
+		if t.Done {
+			continue
+		}
+		if t.cond == nil || t.cond() {
+			en = append(en, t)
+		}
+	}
+	return en
+}
+
+// Step resumes t and waits until it (and everything it spawned) has parked again.
+func (s *Sched) Step(t *Thread) error {
+	s.mu.Lock()
+	t.cond = nil
+	s.busy++
+	s.mu.Unlock()
+	t.resume <- struct{}{}
+	return s.Settle()
+}
+
+// Go starts fn as a registered thread (used by the harness for API calls).
+func (s *Sched) Go(kind, key string, fn func()) error {
+	Spawn()
+	go func() {
+		Begin(kind, key)
+		defer End()
+		fn()
+	}()
+	return s.Settle()
+}
+
+func (s *Sched) Dump() string {
+	buf := make([]byte, 1<<20)
+	n := runtime.Stack(buf, true)
+	return string(buf[:n])
+}
